@@ -144,7 +144,7 @@ int main(int argc, const char **argv) {
     } else if (status > 0) {
       struct fanotify_event_metadata event;
       try(trace);
-      TNEG(read(fanotify_fd, &event, sizeof event) - sizeof event, trace);
+      TNEG(read(fanotify_fd, &event, sizeof event) - (ssize_t)sizeof event, trace);
       finally_rethrow_static(messages.main.fanotify.cannot_read_event, trace);
       if (ok(trace)) {
         if (event.vers != FANOTIFY_METADATA_VERSION) {
